@@ -12,6 +12,14 @@ def get_check(prop):
         from .alloc import AllocCheck
 
         return AllocCheck(prop)
+    if prop in ("C02", "C07", "C15"):
+        from .capi import CapiCheck
+
+        return CapiCheck(prop)
+    if prop == "C16":
+        from .specsrc import SpecSrcCheck
+
+        return SpecSrcCheck()
     raise SystemExit(f"no check for {prop}")
 
 
